@@ -165,7 +165,61 @@ func (E *Engine) addObl(fr *Frame, st *State, kind, label string, goal *Term, po
 	if fr != nil {
 		fnName = fr.fn.String()
 	}
-	E.obls = append(E.obls, &Obligation{Name: name, Kind: kind, Fn: fnName, Pos: E.P.Pos(pos), Goal: goal, Reach: st.reach, NFacts: len(E.facts), Harness: E.harness.Name})
+	// every conjunct is its own query (its own name, result and counterexample)
+	parts := E.splitGoal(goal, 24)
+	for i, g := range parts {
+		n := name
+		if len(parts) > 1 {
+			n = fmt.Sprintf("%s/%d", name, i+1)
+		}
+		E.obls = append(E.obls, &Obligation{Name: n, Kind: kind, Fn: fnName, Pos: E.P.Pos(pos), Goal: g, Reach: st.reach, NFacts: len(E.facts), Harness: E.harness.Name})
+	}
+}
+
+// splitGoal distributes a goal over its conjunctions: ∀x.(A ∧ B), P ⇒ (A ∧ B), P ∨ (A ∧ B).
+func (E *Engine) splitGoal(g *Term, limit int) []*Term {
+	tb := E.tb
+	var out []*Term
+	switch {
+	case g.op == "and":
+		for _, a := range g.args {
+			out = append(out, E.splitGoal(a, limit)...)
+		}
+	case g.kind == kQuant && g.op == "forall":
+		for _, p := range E.splitGoal(g.args[0], limit) {
+			out = append(out, tb.Forall(g.qvars, p))
+		}
+	case g.op == "=>":
+		for _, p := range E.splitGoal(g.args[1], limit) {
+			out = append(out, tb.Implies(g.args[0], p))
+		}
+	case g.op == "or":
+		// split on the disjunct that yields the most pieces
+		idx, best := -1, 1
+		for i, d := range g.args {
+			if d.op == "and" || (d.kind == kQuant && d.op == "forall") || d.op == "=>" {
+				if n := len(E.splitGoal(d, limit)); n > best {
+					idx, best = i, n
+				}
+			}
+		}
+		if idx >= 0 {
+			for _, p := range E.splitGoal(g.args[idx], limit) {
+				ds := append([]*Term{}, g.args[:idx]...)
+				ds = append(ds, p)
+				ds = append(ds, g.args[idx+1:]...)
+				out = append(out, tb.Or(ds...))
+			}
+		} else {
+			out = []*Term{g}
+		}
+	default:
+		out = []*Term{g}
+	}
+	if len(out) > limit || len(out) == 0 {
+		return []*Term{g}
+	}
+	return out
 }
 
 func (fr *Frame) isSpec() bool { return fr.spec }
